@@ -92,8 +92,9 @@ class Check(PropertyCheck):
             if g:
                 e["LBZIP2_VERIF_IN_GRANUL"], e["LBZIP2_VERIF_OUT_GRANUL"] = g
             try:
-                p = subprocess.run([exe] + args, input=data, stdout=subprocess.PIPE, stderr=subprocess.PIPE, timeout=120, env=e)
+                p = subprocess.run([exe] + args, input=data, stdout=subprocess.PIPE, stderr=subprocess.PIPE, timeout=vlib.hang_timeout(120), env=e)
             except subprocess.TimeoutExpired:
+                vlib.note_hang()
                 return (j, "HANG", "")
             err = p.stderr.decode("latin-1")
             bad = p.returncode not in (0, 1) or "ERROR: AddressSanitizer" in err or "runtime error:" in err
